@@ -319,6 +319,7 @@ pub fn run(prop: &str, thorough: bool, case_seed: u64, sub: u64) -> ExecOut {
     let mut saw_none = false;
     let mut last_cap = g.len_cap_empty().1;
     let mut draining = false;
+    let mut burst_left = if mass { inserts_left.saturating_sub(w(|w| w.below(3))) } else { 0 };
     let mut oplog: Vec<String> = vec![format!("{ctor_desc}{}", if keyed { ".keyed()" } else { "" })];
     loop {
         steps += 1;
@@ -383,7 +384,13 @@ pub fn run(prop: &str, thorough: bool, case_seed: u64, sub: u64) -> ExecOut {
             ops = max_ops;
             continue;
         }
-        let o = opts[w(|w| w.below(opts.len()))];
+        let mut o = opts[w(|w| w.below(opts.len()))];
+        // mass histories start with a burst of inserts, so that many members are polled for the first time (and may
+        // finish) in one and the same poll of the group
+        if burst_left > 0 && inserts_left > 0 && !draining {
+            burst_left -= 1;
+            o = 2;
+        }
         ops += 1;
         match o {
             0 | 6 => {
